@@ -196,7 +196,8 @@ def check(case):
 
 def extra_coverage(results, tier, seed):
     gave = sum(1 for r in results if "gave-up" in str(r.get("outcome")) or "short" in str(r.get("outcome")))
-    if gave > 0.2 * len(results):
+    # vacuity guard; it must not mask violations that were found (exit 1 wins over exit 2)
+    if gave > 0.2 * len(results) and not any(r.get("fails") for r in results):
         raise RuntimeError(f"vacuous: {gave} of {len(results)} parts did not complete")
     return {"step_sizes": DTS, "order_step_sizes": ORDER_DTS, "T_order": T_ORD, "T_drift": T_LONG[tier], "T_reverse": T_REV, "newton_tolerance": NEWTON_TOL,
             "parts_not_completed": gave, "tolerances": {"ratio": list(RATIO), "reverse": TOL_REV, "drift_factor_regular": 2.0}}
